@@ -186,9 +186,9 @@ Qed.
 Lemma ups_min_min_of : forall u, ups_min u = min_of (map snd u).
 Proof. intros [|[s t] r]; reflexivity. Qed.
 
-Lemma spec_min_min_of : forall ids msgs,
-  spec_min ids msgs = match min_of (map (latest msgs) (participants ids msgs)) with Some m => m | None => go_zero_time end.
-Proof. intros ids msgs. unfold spec_min. destruct (map (latest msgs) (participants ids msgs)); reflexivity. Qed.
+Lemma spec_composite_min_of : forall ids msgs,
+  spec_composite ids msgs = match min_of (map (latest msgs) (participants ids msgs)) with Some m => m | None => epoch end.
+Proof. intros ids msgs. unfold spec_composite. destruct (map (latest msgs) (participants ids msgs)); reflexivity. Qed.
 
 Lemma ups_inv_values : forall ids msgs u, ups_inv ids msgs u ->
   forall v, In v (map snd u) <-> In v (map (latest msgs) (participants ids msgs)).
@@ -199,21 +199,26 @@ Proof.
 Qed.
 
 Lemma ups_min_spec : forall ids msgs u, ups_inv ids msgs u ->
-  match ups_min u with Some c => c | None => go_zero_time end = spec_min ids msgs.
+  match ups_min u with Some c => c | None => epoch end = spec_composite ids msgs.
 Proof.
-  intros ids msgs u Hinv. rewrite ups_min_min_of, spec_min_min_of.
+  intros ids msgs u Hinv. rewrite ups_min_min_of, spec_composite_min_of.
   rewrite (min_of_ext _ _ (ups_inv_values _ _ _ Hinv)). reflexivity.
+Qed.
+
+(* with no message yet every participant counts as the epoch, so the composite is the epoch *)
+Lemma spec_composite_nil : forall ids, spec_composite ids [] = epoch.
+Proof.
+  intro ids. rewrite spec_composite_min_of.
+  destruct (min_of (map (latest []) (participants ids []))) as [m|] eqn:E; [|reflexivity].
+  destruct (min_of_char _ _ E) as [Hin _]. apply in_map_iff in Hin. destruct Hin as [s [<- _]]. reflexivity.
 Qed.
 
 (* ---------- the registry ---------- *)
 Definition reg_inv (ids : list N) (msgs : list (N * Z)) (r : reg) : Prop :=
   ups_inv ids msgs (r_ups r) /\ r_wm r = spec_composite ids msgs.
 
-Lemma spec_composite_app1 : forall ids msgs s t, spec_composite ids (msgs ++ [(s, t)]) = spec_min ids (msgs ++ [(s, t)]).
-Proof. intros ids msgs s t. unfold spec_composite. destruct msgs; reflexivity. Qed.
-
 Lemma reg_inv_new : forall ids, reg_inv ids [] (reg_new ids).
-Proof. intro ids. split; [apply ups_inv_init|reflexivity]. Qed.
+Proof. intro ids. split; [apply ups_inv_init|symmetry; apply spec_composite_nil]. Qed.
 
 Lemma reg_inv_set_timer : forall ids msgs r k t, reg_inv ids msgs r -> reg_inv ids msgs (set_timer r k t).
 Proof. intros ids msgs r k t H. unfold set_timer. destruct (r_wm r <? t); exact H. Qed.
@@ -223,7 +228,7 @@ Lemma reg_inv_note : forall ids msgs r s p,
 Proof.
   intros ids msgs r s p [Hu _]. unfold reg_note. split; cbn [r_ups r_wm].
   - apply ups_inv_step. exact Hu.
-  - rewrite spec_composite_app1. apply ups_min_spec. apply ups_inv_step. exact Hu.
+  - apply ups_min_spec. apply ups_inv_step. exact Hu.
 Qed.
 
 Lemma fire_le : forall c ts f keep, fire c ts = (f, keep) -> forall t k, In (t, k) f -> t <= c.
@@ -291,22 +296,24 @@ Proof.
 Qed.
 
 (* ---------- characterisation of the specified composite: it IS the minimum ---------- *)
-Lemma spec_composite_char : forall ids msgs, msgs <> [] ->
+Lemma spec_composite_char : forall ids msgs, participants ids msgs <> [] ->
   let c := spec_composite ids msgs in
   (forall s, In s (participants ids msgs) -> c <= latest msgs s) /\
   (exists s, In s (participants ids msgs) /\ c = latest msgs s).
 Proof.
   intros ids msgs Hne c.
-  assert (Hc : c = spec_min ids msgs) by (unfold c, spec_composite; destruct msgs; [contradiction|reflexivity]).
-  rewrite spec_min_min_of in Hc.
+  assert (Hc : c = spec_composite ids msgs) by reflexivity.
+  rewrite spec_composite_min_of in Hc.
   assert (Hpne : map (latest msgs) (participants ids msgs) <> []).
-  { unfold participants. destruct msgs as [|m msgs]; [contradiction|].
-    intro H. apply map_eq_nil in H. apply app_eq_nil in H. destruct H as [_ H]. discriminate. }
-  destruct (min_of_some _ Hpne) as [m Hm]. rewrite Hm in Hc. subst c. rewrite Hc.
+  { intro H. apply map_eq_nil in H. contradiction. }
+  destruct (min_of_some _ Hpne) as [m Hm]. rewrite Hm in Hc. rewrite Hc.
   destruct (min_of_char _ _ Hm) as [Hin Hle]. split.
   - intros s Hs. apply Hle. apply in_map. exact Hs.
   - apply in_map_iff in Hin. destruct Hin as [s [Heq Hs]]. exists s. split; [exact Hs|symmetry; exact Heq].
 Qed.
+
+Lemma spec_composite_nobody : forall ids msgs, participants ids msgs = [] -> spec_composite ids msgs = epoch.
+Proof. intros ids msgs H. unfold spec_composite. rewrite H. reflexivity. Qed.
 
 Lemma go_zero_below_epoch : go_zero_time < epoch.
 Proof. unfold go_zero_time, epoch, NS. lia. Qed.
@@ -468,9 +475,10 @@ Lemma composite_is_min_full : forall ids ops,
   let msgs := rop_msgs ops in
   let c := r_wm (reg_run (reg_new ids) ops) in
   c = spec_composite ids msgs /\
-  (msgs = [] -> c = go_zero_time /\ go_zero_time < epoch) /\
-  (msgs <> [] -> (forall s, In s (participants ids msgs) -> c <= latest msgs s) /\
-                 (exists s, In s (participants ids msgs) /\ c = latest msgs s)) /\
+  (participants ids msgs <> [] ->
+     (forall s, In s (participants ids msgs) -> c <= latest msgs s) /\
+     (exists s, In s (participants ids msgs) /\ c = latest msgs s)) /\
+  (participants ids msgs = [] -> c = epoch) /\
   (forall s, ~ In s (map fst msgs) -> latest msgs s = epoch) /\
   (forall m1 s t m2, msgs = m1 ++ (s, t) :: m2 -> ~ In s (map fst m2) -> latest msgs s = t).
 Proof.
@@ -478,8 +486,8 @@ Proof.
   assert (Hc : c = spec_composite ids msgs).
   { pose proof (reg_run_inv ops ids [] (reg_new ids) (reg_inv_new ids)) as [_ Hw]. exact Hw. }
   split; [exact Hc|]. split; [|split; [|split]].
-  - intro He. rewrite Hc, He. split; [reflexivity|apply go_zero_below_epoch].
   - intro Hne. rewrite Hc. apply spec_composite_char. exact Hne.
+  - intro He. rewrite Hc. apply spec_composite_nobody. exact He.
   - apply latest_unreported_l.
   - intros m1 s t m2 -> Hn. apply latest_last_l. exact Hn.
 Qed.
@@ -505,4 +513,40 @@ Lemma no_timer_beyond_min_at_handler_full : forall (h : handler) ids m ops i cal
 Proof.
   intros h ids m ops i calls H c Hc k t Hin.
   exact (proj2 (op_trace_spec_gen h m ops ids [] (op_new ids) i calls (op_inv_new ids) H) c Hc k t Hin).
+Qed.
+
+Lemma tins_sorted_in : forall x l, In x (tins_sorted x l).
+Proof.
+  intros x l. induction l as [|y r IH]; cbn [tins_sorted]; [left; reflexivity|].
+  destruct (u64 (fst x) <? u64 (fst y)); [left; reflexivity|right; exact IH].
+Qed.
+
+Lemma tins_in : forall x l, In x (tins x l).
+Proof.
+  intros [t k] l. unfold tins. destruct (existsb (timer_eqb (t, k)) l) eqn:E; [|apply tins_sorted_in].
+  apply existsb_exists in E. destruct E as [[t' k'] [Hin He]]. unfold timer_eqb in He. cbn [fst snd] in He.
+  apply andb_true_iff in He. destruct He as [H1 H2]. apply Z.eqb_eq in H1. apply N.eqb_eq in H2. subst. exact Hin.
+Qed.
+
+(* the SetTimer guard, both ways: at or before the composite watermark nothing happens (in particular a timer
+   at or before the epoch set before any watermark message is dropped); after it the timer is stored *)
+Lemma set_timer_guard_full2 : forall r k t,
+  (t <= r_wm r -> set_timer r k t = r) /\
+  (r_wm r < t -> In (swrap64 t, k) (r_timers (set_timer r k t)) /\ r_wm (set_timer r k t) = r_wm r) /\
+  (forall ids, t <= epoch -> set_timer (reg_new ids) k t = reg_new ids).
+Proof.
+  intros r k t. split; [apply set_timer_guard_full|]. split.
+  - intro H. unfold set_timer. apply Z.ltb_lt in H. rewrite H. cbn [r_timers r_wm]. split; [apply tins_in|reflexivity].
+  - intros ids H. apply set_timer_guard_full. exact H.
+Qed.
+
+(* the behaviour before the repair: the first handler call of an operator with one configured runner was told
+   year 1 instead of the composite (the epoch) *)
+Lemma handler_told_before_fix_refuted :
+  exists ids ops calls c,
+    nth_error (op_trace (fun _ _ => []) 1 {| o_reg := reg_new_before_fix ids; o_batch := [] |} ops) 0 = Some calls /\
+    In c calls /\ c_told c <> pb_new (spec_composite ids (oop_msgs (firstn 1 ops))).
+Proof.
+  exists [1%N], [OEv 1 1 0 []]. eexists. eexists. split; [reflexivity|]. split; [left; reflexivity|].
+  vm_compute. discriminate.
 Qed.
